@@ -1,10 +1,35 @@
+(* Translator tie of the scorer (C13): gen/Scorer_gen.v `py_pcfg_scorer_parse` - the
+   line-by-line image of PCFGPasswordScorer.parse, regenerated from the Python
+   source on every run by harness/translate_scorer.py - equals the hand-written
+   model Scorer.score over Segment.parse, for every probability type, every
+   choice of the character predicates and data constants, every scorer object
+   and every string.
+
+   The proofs are written against what the generated definition COMPUTES, not
+   against its text: the detector calls are resolved with the stage equations
+   of Segment.parse, every loop is rewritten with a lemma whose side condition
+   (the loop body, for all items and accumulators) is closed by conversion,
+   tests are decided by case analysis.  Renamed locals, `x = x * e`, early
+   returns instead of the category variable, an inlined helper, another form of
+   the classification cut-off keep checking; a dropped / duplicated / reordered
+   factor, another table, a detector called at another point of the pipeline, a
+   changed return value do not.
+
+     gen_ok         the segmentation returns r  ->  the translated parse returns
+                    ScorerRt.parse_result b self s r for some outcome b of the
+                    cut-off test (which only chooses the letter o / p)
+     gen_err        the segmentation raises  ->  so does the translated parse,
+                    unless it had already returned for an e-mail / website
+     gen_is_score   (category as e / w / other, probability) = Scorer.score *)
 From Coq Require Import List ZArith NArith Bool Lia.
 From Pcfg Require Import Str Multiword Detect Segment Scorer ScorerRt.
 From PcfgGen Require Import Scorer_gen.
 Import ListNotations.
 Open Scope Z_scope.
 
-(* ---- the loops *)
+(* ---- the loops: for_each with the body the translator emits is the fold of
+   the model (the hypothesis is about the body as a function: any text that
+   computes the same thing fits) *)
 Section Loops.
 Variable P : Type.
 Variable pmul : P -> P -> P.
